@@ -1189,6 +1189,7 @@ func (s *Service) queryEventExpire(v interface{}) {
 	qe := v.(*queryEvent)
 	qe.sub.Drain()
 	s.runWith(qe.r.Group(), func() {
+		qe.expired = true
 		qe.cb(nil)
 	})
 }
